@@ -3,6 +3,7 @@ import DriverLib.Gens
 import DriverLib.WorldDrv
 import DriverLib.ParseDrv
 import DriverLib.TowerDrv
+import DriverLib.CliDrv
 open Lean Drv
 
 partial def dispatch (j : Json) : R Json := do
@@ -18,6 +19,7 @@ partial def dispatch (j : Json) : R Json := do
   | "solo" => handleSolo j
   | "generated" => handleGenerated j
   | "parse" => handleParse j
+  | "cli" => handleCli j
   | "tower" => handleTower j
   | "page" => handlePage j
   | "cs" => handleCs j
